@@ -19,7 +19,7 @@ import numpy as np
 from harness import common, gen
 from harness.props.c19 import phase_close
 
-MODULES = ['CirqVerif.Props.C17']
+MODULES = ['CirqVerif.Props.C17', 'CirqVerif.Props.C17b', 'NonVacuity.ComplexModel']
 
 
 def mat(out):
@@ -341,6 +341,54 @@ def check_altered(ctx, cirq, cirq_ionq):
             ctx.report_witness('aqt:sample-bits', 'AQT samples assign outcomes to the wrong qubits', dict(rep, impl_out=[data.astype(int).tolist()], spec_out=[flips]))
 
 
+def check_rules(ctx, cirq, cirq_ionq):
+    """the serializer writes exactly the gate names and rotations whose meaning Props/C17b.lean proves for every exponent"""
+    rng = ctx.substream('rules')
+    ser = cirq_ionq.Serializer()
+    a, b = cirq.LineQubit.range(2)
+    for it in range(30 if ctx.tier == 'quick' else 400):
+        while True:
+            t = round(rng.uniform(-1.9, 1.9), 4)
+            if min(abs(t - x) for x in (-2, -1.75, -1.5, -1.25, -1, -0.75, -0.5, -0.25, 0, 0.25, 0.5, 0.75, 1, 1.25, 1.5, 1.75, 2)) > 2e-3:
+                break
+        shift = rng.choice([0, -0.5, 0.25])
+        cases = [
+            ('C17_rule_rx', cirq.XPowGate(exponent=t, global_shift=shift).on(a), 'rx', [0]), ('C17_rule_rx', cirq.rx(np.pi * t).on(a), 'rx', [0]),
+            ('C17_rule_ry', cirq.YPowGate(exponent=t, global_shift=shift).on(b), 'ry', [1]), ('C17_rule_rz', cirq.ZPowGate(exponent=t, global_shift=shift).on(a), 'rz', [0]),
+            ('C17_rule_xx', cirq.XXPowGate(exponent=t, global_shift=shift).on(a, b), 'xx', [0, 1]), ('C17_rule_yy', cirq.YYPowGate(exponent=t, global_shift=shift).on(b, a), 'yy', [1, 0]),
+            ('C17_rule_zz', cirq.ZZPowGate(exponent=t, global_shift=shift).on(a, b), 'zz', [0, 1]),
+        ]
+        for rule, op, name, targets in cases:
+            ctx.count('check', 'rule:' + rule)
+            ctx.case(['rule', rule, repr(op)], True)
+            rep = {'lines': [{'rule': rule, 'op': repr(op)}], 'theorem_or_correspondence': rule}
+            try:
+                got = [g for g in ser.serialize_single_circuit(cirq.Circuit(op)).input['circuit'] if g]
+            except Exception as e:  # noqa: BLE001
+                ctx.report_witness(f'rule:{rule}:raises', 'a gate of the accepted vocabulary cannot be serialized', dict(rep, impl_out=[f'{type(e).__name__}: {e}'[:300]], spec_out=[name]))
+                continue
+            want = {'gate': name, 'targets': targets, 'rotation': t * np.pi}
+            ok = len(got) == 1 and got[0].get('gate') == name and list(got[0].get('targets', [])) == targets and abs(got[0].get('rotation', 1e9) - t * np.pi) < 1e-9 and set(got[0]) == set(want)
+            if ok:
+                continue
+            # another spelling is not a violation by itself: the float interpretation of the payload decides
+            try:
+                out = ctx.driver.ask([{'p': 'C17', 'op': 'unitary', 'nq': 2, 'gates': ionq_gates_to_lean({'circuit': got, 'gateset': 'qis'})}])[0]
+                u_got = mat(out['matrix']) if isinstance(out, dict) and 'matrix' in out else None
+            except Exception:  # noqa: BLE001
+                u_got = None
+            u = cirq.Circuit(op).unitary(qubit_order=[a, b], qubits_that_should_be_present=[a, b])
+            same = False
+            if u_got is not None and u_got.shape == u.shape:
+                k = np.argmax(np.abs(u))
+                ph = u_got.flat[k] / u.flat[k] if abs(u.flat[k]) > 1e-9 else 1
+                same = phase_close(u_got, u, 1e-6)
+            if same:
+                ctx.report_unproved(rule, 'the gate is no longer serialized with the spelling the theorem is about (the payload still denotes the gate in floats)', dict(rep, impl_out=[got], spec_out=[want]))
+            else:
+                ctx.report_witness(f'rule:{rule}', 'the serialized gate does not denote the operation', dict(rep, impl_out=[got], spec_out=[want]))
+
+
 def run(ctx: common.Run):
     import cirq
     import cirq_ionq
@@ -365,6 +413,7 @@ def run(ctx: common.Run):
     check_ionq_results(ctx, cirq, cirq_ionq, n // 2)
     check_aqt(ctx, cirq, n // 2)
     check_altered(ctx, cirq, cirq_ionq)
+    check_rules(ctx, cirq, cirq_ionq)
 
 
 def replay(ctx, rep):
